@@ -36,6 +36,8 @@ def run(ctx, obs):
         mod = q.rsplit('.', 1)[0]
         for h in ('_nan_mean', '_nan_rank_data'):
             nant.check_function(ctx, obs, mod + '.' + h, taint_params=('rdm_vector',))
+        from ..rules.ranks import tie_averaged
+        tie_averaged(ctx, obs, mod + '._nan_rank_data')
     tables(ctx, obs)
 
 
